@@ -4,7 +4,7 @@
 # scratch worktree of /repo that carries the change; run from a scratch clone of the committed /verif.
 # Nothing in /repo or /verif is touched except the result log work/seedrecheck_<seed>.log.
 SEED=${1:-1}; GLOB=${2:-*}
-VS=/tmp/verif_seed
+VS=${VERIF_SEED_CLONE:-/tmp/verif_seed}
 [ -d $VS/.git ] || git clone -q /verif $VS
 git -C $VS fetch -q origin && git -C $VS reset -q --hard FETCH_HEAD
 LOG=/verif/work/seedrecheck_$SEED.log; mkdir -p /verif/work; : > $LOG
